@@ -197,3 +197,51 @@ fn panic_does_not_fit(size: usize, nbytes: usize) -> ! {
 fn offset_from(dst: *const u8, original: *const u8) -> usize {
     dst as usize - original as usize
 }
+
+// ===== verification hooks (compiled only with `--cfg tokio_rs_bytes_verif`) =====
+
+/// Read-only descriptors of the hidden representation of `Bytes` / `BytesMut`
+/// handles. Only used by the external model-checking harness to build a
+/// canonical state key; never compiled in normal builds.
+#[cfg(all(tokio_rs_bytes_verif, not(loom)))]
+#[doc(hidden)]
+#[allow(missing_docs)]
+pub mod verif {
+    /// Kinds reported in `Repr::kind`.
+    pub const B_STATIC: u8 = 0;
+    pub const B_OWNED: u8 = 1;
+    pub const B_PROMOTABLE_EVEN: u8 = 2;
+    pub const B_PROMOTABLE_ODD: u8 = 3;
+    pub const B_SHARED: u8 = 4;
+    pub const B_SHARED_MUT: u8 = 5;
+    pub const B_UNKNOWN: u8 = 15;
+    pub const M_VEC: u8 = 16;
+    pub const M_ARC: u8 = 17;
+
+    #[derive(Clone, Copy, Debug, PartialEq, Eq, Hash, Default)]
+    pub struct Repr {
+        pub kind: u8,
+        /// promotable vtables only: the data word already points to a control block
+        pub promoted: bool,
+        /// raw value of the data word
+        pub data: usize,
+        /// address of the control block (0 if none)
+        pub ctrl: usize,
+        pub ref_cnt: usize,
+        /// buffer base / capacity / length recorded in the control block (0 if none)
+        pub buf: usize,
+        pub buf_cap: usize,
+        pub buf_len: usize,
+        /// `BytesMut` inline-Vec form: offset of `ptr` from the Vec start
+        pub vec_pos: usize,
+        pub orig_cap_repr: usize,
+        pub ptr: usize,
+        pub len: usize,
+        pub cap: usize,
+    }
+}
+
+#[cfg(all(test, loom, tokio_rs_bytes_verif))]
+mod verif_loom {
+    include!(env!("BYTES_VERIF_LOOM_MODELS"));
+}
